@@ -1,7 +1,8 @@
 (* C15 - property theorems: proxy services relay unchanged to the configured backend.
    The model is of the repaired code (http-proxy: one reader per leg, no added User-Agent,
    no stray CRLF after a HEAD reply; copy/dns-proxy: dispatch on the local address;
-   ssh-proxy: the request goroutine closes nothing). *)
+   dns-proxy: length-framed messages over a stream, every forwarded datagram recorded;
+   ssh-proxy: the request goroutine closes nothing, a close waits for a reply in flight). *)
 From HT Require Import Common.Bytes C15.Model C15.Proofs.
 From Coq Require Import Permutation.
 Open Scope Z_scope.
@@ -115,25 +116,35 @@ Theorem C15_copy_datagram_relayed : forall peeked accepted d reply more, local_k
   copy_model (server_wrap peeked accepted) [d] (reply :: more) = mkRaw 1 [d ++ []] [reply] 1.
 Proof. exact copy_datagram_behind_server. Qed.
 
-(* dns-proxy behind the server: a datagram that is a DNS message is forwarded, its reply
-   returned, one event *)
-Theorem C15_dns_datagram_relayed : forall peeked accepted d reply more got, local_kind accepted = AUdp ->
-  dns_model (server_wrap peeked accepted) [d] true (reply :: more) got = mkRaw 1 [d ++ []] [reply] 1.
+(* dns-proxy behind the server: a datagram is forwarded, its answer returned, one event -
+   whether or not it unpacks as a DNS message (one that does not is recorded with its payload) *)
+Theorem C15_dns_datagram_relayed : forall peeked accepted d parses reply more, local_kind accepted = AUdp ->
+  dns_model (server_wrap peeked accepted) [d] parses (reply :: more) = mkRaw 1 [d ++ []] [reply] 1.
 Proof. exact dns_datagram_behind_server. Qed.
 
-(* what remains a defect: a datagram that is not a DNS message is forwarded, but neither
-   recorded nor is a reply returned ... *)
-Theorem C15_dns_datagram_not_dns_unrecorded : forall peeked accepted d reply got, local_kind accepted = AUdp ->
-  dns_model (server_wrap peeked accepted) [d] false reply got = mkRaw 1 [d ++ []] [] 0.
-Proof. exact dns_datagram_not_dns. Qed.
+(* io.ReadFull / readMsg over any segmentation: a length-framed message is read whole and
+   what follows it stays *)
+Theorem C15_dns_read_msg_all_segmentations : forall segs q x,
+  concat segs = pfx (length q) ++ q ++ x ->
+  exists rest, read_msg segs = Some (q, rest) /\ concat rest = x.
+Proof. exact read_msg_framed. Qed.
 
-(* ... and over a stream dns-proxy does one Read each way: only the client's first write
-   reaches the backend (nothing if it does not parse), only one Read's worth of the reply
-   the client *)
-Theorem C15_dns_stream_single_read : forall peeked accepted q more reply got, local_kind accepted = ATcp ->
-  dns_model (server_wrap peeked accepted) (q :: more) true reply got = mkRaw 1 [q] [firstn got (concat reply)] 1 /\
-  dns_model (server_wrap peeked accepted) (q :: more) false reply got = raw_nothing.
-Proof. exact dns_stream_single_read. Qed.
+(* dns-proxy over a stream behind the server (RFC 1035 4.2.2 framing): for ALL
+   segmentations of a length-framed DNS query and of the length-framed answer, the backend
+   receives the framed query and the client the framed answer; one backend connection,
+   one event *)
+Theorem C15_dns_stream_relayed : forall peeked accepted csegs bsegs q a x y, local_kind accepted = ATcp ->
+  (N.of_nat (length q) < 65536)%N -> (N.of_nat (length a) < 65536)%N ->
+  concat csegs = pfx (length q) ++ q ++ x -> concat bsegs = pfx (length a) ++ a ++ y ->
+  dns_model (server_wrap peeked accepted) csegs true bsegs =
+  mkRaw 1 [pfx (length q) ++ q] [pfx (length a) ++ a] 1.
+Proof. exact dns_stream_behind_server. Qed.
+
+(* a framed message that does not unpack, or a stream that ends inside the message: no
+   backend connection is opened at all *)
+Theorem C15_dns_stream_rejects_non_dns : forall peeked accepted csegs bsegs, local_kind accepted = ATcp ->
+  dns_model (server_wrap peeked accepted) csegs false bsegs = raw_nothing.
+Proof. exact dns_stream_rejects. Qed.
 
 (* ---- ssh-proxy (message level) ---- *)
 
@@ -200,8 +211,9 @@ Print Assumptions C15_switch_sees_through_server_wrappers.
 Print Assumptions C15_copy_stream_relayed.
 Print Assumptions C15_copy_datagram_relayed.
 Print Assumptions C15_dns_datagram_relayed.
-Print Assumptions C15_dns_datagram_not_dns_unrecorded.
-Print Assumptions C15_dns_stream_single_read.
+Print Assumptions C15_dns_read_msg_all_segmentations.
+Print Assumptions C15_dns_stream_relayed.
+Print Assumptions C15_dns_stream_rejects_non_dns.
 Print Assumptions C15_ssh_auth_forwarded_as_presented.
 Print Assumptions C15_ssh_relay_order.
 Print Assumptions C15_ssh_cross_order_not_kept.
